@@ -6,6 +6,7 @@ CPython (subscript, attribute on None, str.index, assert, explicit raise) yields
 that must be allowed by the function's `raises` clause.
 """
 import ast
+import os
 
 import z3
 
@@ -121,6 +122,7 @@ class Exec(ExprMixin, CallMixin):
                 props=props if props is not None else c.props,
                 trace=st.trace[-12:],
                 func=fi.qualname,
+                weak=list(getattr(st, "weak", ())) + list(getattr(self, "weak_all", ())),
             )
         )
 
@@ -143,6 +145,12 @@ class Exec(ExprMixin, CallMixin):
             self.loop_ord[n if isinstance(n, tuple) else id(n)] = k
             k += 1
         self.nloops = k
+        self.check_annotations_attach(fi, contract)
+        self.weak_all = []
+        nb = self.baseline_loops().get(fi.qualname)
+        if nb is not None and nb != k:
+            # invariants are attached by loop ordinal: with a different number of loops they may sit on the wrong loop
+            self.weak_all = [f"{fi.qualname} has {k} loops, the invariants were written for {nb}"]
         # parameters
         args = fi.node.args
         names = [a.arg for a in args.posonlyargs + args.args + args.kwonlyargs]
@@ -265,6 +273,35 @@ class Exec(ExprMixin, CallMixin):
             isinstance(s, ast.Expr) and isinstance(v, ast.Call) and isinstance(v.func, ast.Attribute) and v.func.attr == "extend"
             and len(v.args) == 1 and isinstance(v.args[0], ast.GeneratorExp)
         )
+
+    def check_annotations_attach(self, fi, c):
+        """annotations refer to the code by statement text and local names; when the code no longer has them (renamed
+        local, rewritten statement) the contract cannot be checked against this source: undecided, never a refutation"""
+        texts = [ast.unparse(n).split("\n")[0] for n in ast.walk(fi.node) if isinstance(n, ast.stmt)]
+        for group in (c.lemmas, c.cuts, c.ghost_updates):
+            for anchor in group:
+                a = anchor[7:].strip() if anchor.startswith("before:") else anchor
+                if not any(a in t for t in texts):
+                    raise Unsupported(f"annotation anchor {a!r} matches no statement of {fi.qualname} (the statement was rewritten)")
+        stored = {n.id for n in ast.walk(fi.node) if isinstance(n, ast.Name) and isinstance(n.ctx, ast.Store)}
+        stored |= {a.arg for a in ast.walk(fi.node) if isinstance(a, ast.arg)}
+        for nm in list(c.exposes):
+            if nm not in stored and not nm.startswith("_"):
+                raise Unsupported(f"local {nm} named by the contract does not exist in {fi.qualname} (renamed?)")
+
+    _baseline_loops = None
+
+    def baseline_loops(self):
+        if Exec._baseline_loops is None:
+            import json
+
+            from . import VERIF
+
+            try:
+                Exec._baseline_loops = json.load(open(os.path.join(VERIF, "baseline", "loops.json")))
+            except OSError:
+                Exec._baseline_loops = {}
+        return Exec._baseline_loops
 
     def _loops_in_order(self, fnode):
         out = []
@@ -872,9 +909,18 @@ class Exec(ExprMixin, CallMixin):
         for lm in lc.lemmas:
             st.assume(self.eval_spec(lm, st, self.spec_locals(st, extra), st.old))
 
+    def mark_weak_loop(self, st, s, lc):
+        """a loop that carries no invariant is cut by a bare havoc: what follows is an over-approximation that no
+        annotation vouches for, so a counter-model found there means "proof lost", not "obligation refuted".  """
+        if not lc.invariant:
+            if not hasattr(st, "weak"):
+                st.weak = []
+            st.weak.append(f"loop at line {s.lineno} of {self.cur[0].qualname if not self.inline_depth else 'an inlined callee'} has no invariant")
+
     def st_While(self, s, st):
         k, lc = self.loop_contract(s)
         self.check_invariants(st, lc, k, "establish", None)
+        self.mark_weak_loop(st, s, lc)
         st2 = st
         self.havoc_for_loop(st2, s.body + s.orelse, lc)
         self.assume_invariants(st2, lc, None)
@@ -921,6 +967,7 @@ class Exec(ExprMixin, CallMixin):
             extra0["_seq"] = seqv
             extra0[f"_seq{k}"] = seqv
         self.check_invariants(st, lc, k, "establish", extra0)
+        self.mark_weak_loop(st, s, lc)
         st2 = st
         self.havoc_for_loop(st2, s.body + s.orelse, lc)
         # iteration variables are re-bound in each iteration
